@@ -140,6 +140,9 @@ func contract(c tcase, o obs) []finding {
 	case c.Strat == "fast" || c.Strat == "race":
 		if len(o.Inv) != n {
 			bad("starts", "not every member was started", strconv.Itoa(n), strconv.Itoa(len(o.Inv)))
+			if len(o.Returned) != n {
+				return fs // (the rest speaks of every member's return)
+			}
 		}
 		wantMsg, wantIdx, wantErr, wantRet, placed := "-", 0, "noresp", 0, false
 		if c.Strat == "race" && n > 0 {
